@@ -22,6 +22,9 @@ ASSUMPTIONS = ['test_int never interrupts (Interrupt = Never)', 'limbs are u64 (
 W = 1 << 64
 SPECIAL = [0, 1, 2, 1 << 62, (1 << 63) - 1, 1 << 63, (1 << 63) + 1, W - 2, W - 1]
 
+BIG_EXPONENTS = [(1 << 31) - 1, 1 << 31, (1 << 31) + 1, (1 << 32) - 1, 1 << 32, (1 << 32) + 1, 3 << 32, (3 << 32) + 1, 1 << 33,
+                 (1 << 48) + 7, (1 << 63) - 1, 1 << 63, (1 << 63) + 1, W - 2, W - 1]
+
 # ----------------------------------------------------------------------------
 # representations
 
@@ -260,6 +263,18 @@ def gen_bu_cases(c):
         cases.append(('bu-pow', rep_of(r, r.choice([0, 1, 2])), rep_of(r, W ** r.randint(1, 2) + r.choice([0, 1, 5])), 'pow-exp-too-large'))
         cases.append(('bu-pow', rep_of(r, 0), rep_of(r, 0), 'pow-0-0'))
         cases.append(('bu-pow', rep_of(r, r.choice([0, 1, 2, 3])), rep_of(r, r.choice([0, 1, 2, 64, 65, 127, 128, 200])), 'pow-tiny-base'))
+    # exponents far beyond 32 bits on the bases for which the power is computable (0, 1):
+    # every bit of a u64 exponent matters (narrowing to u32/i32/usize fast paths)
+    # (single-limb bases only: square-and-multiply doubles the length of a base stored with a
+    # leading zero limb at every squaring, 1 = Large[1,0] to the 2^63 does not finish -- see notes)
+    TRIVIAL = (('s', 0), ('s', 1), ('l', [0]), ('l', [1]))
+    for e in BIG_EXPONENTS:
+        for a in TRIVIAL:
+            cases.append(('bu-pow', a, ('s', e), 'pow-big-exp-trivial-base'))
+        cases.append(('bu-pow', r.choice(TRIVIAL), ('l', [e] + [0] * r.randint(0, 2)), 'pow-big-exp-trivial-base'))
+    for _ in range(20 * N):
+        e = r.choice([r.getrandbits(64), r.getrandbits(40), (r.getrandbits(31) + 1) << 32, (r.getrandbits(32) << 32) | r.getrandbits(3)]) or 1
+        cases.append(('bu-pow', r.choice(TRIVIAL), rep_of(r, e), 'pow-big-exp-trivial-base'))
     # malformed stream: empty Large (violates the len >= 1 invariant)
     for op in ('bu-add', 'bu-sub', 'bu-mul', 'bu-cmp', 'bu-divmod'):
         cases.append((op, ('l', []), ('s', 3), 'malformed-empty-large'))
@@ -485,6 +500,16 @@ def gen_br_cases(c):
         cases.append(('br-pow', base, (r.random() < 0.5, rep_of(r, W ** r.randint(1, 2) + r.choice([0, 3])), rep_of(r, 1)), 'pow-exp-too-large'))
         cases.append(('br-pow', base, (r.random() < 0.5, ('l', [abs(z), 0]), rep_of(r, 1)), 'pow-leading-zero-exp'))
         cases.append(('br-pow', base, rat_of(r, Fraction(r.choice([1, 3, 5, -1, 7]), 2)), 'pow-non-integer'))
+    # huge machine-range exponents on bases 0, 1, -1 (written reduced or not)
+    # (bases without leading zero limbs, see the remark in gen_bu_cases)
+    def trivial_rat(q):
+        k = r.choice([1, 1, 3, W - 1, W + 1])
+        one = lambda v: r.choice([('s', v), ('l', [v])]) if v < W else ('l', limbs_of(v))
+        return (q < 0 or (q == 0 and r.random() < 0.3), one(abs(q.numerator) * k), one(k))
+    for e in BIG_EXPONENTS:
+        for q in (Fraction(0), Fraction(1), Fraction(-1)):
+            for sg in (1, -1):
+                cases.append(('br-pow', trivial_rat(q), rat_of(r, Fraction(sg * e)), 'pow-big-exp-trivial-base'))
     # malformed: zero denominators (outside wfr) -- model must still predict the code
     z0 = (False, ('s', 3), ('s', 0)); z1 = (True, ('l', [1, 1]), ('l', [0, 0]))
     for op in ('br-add', 'br-mul', 'br-div', 'br-cmp'):
@@ -601,8 +626,19 @@ class Undefined(Exception):
     def __init__(self, kind):
         self.kind = kind
 
+SUP = '\u2070\u00b9\u00b2\u00b3\u2074\u2075\u2076\u2077\u2078\u2079'
+
+def sup_digits(digits):
+    return ''.join(SUP[int(ch)] for ch in digits)
+
 def lit_value(text):
-    """the rational a literal denotes (integers, terminating decimals, a.b(c) recurring decimals)"""
+    """the rational a literal denotes (integers, terminating decimals, a.b(c) recurring decimals,
+    any of these followed by a superscript exponent: 2\u00b9\u2070 = 2^10)"""
+    k = len(text)
+    while k > 0 and text[k - 1] in SUP:
+        k -= 1
+    if k < len(text):
+        return lit_value(text[:k]) ** int(''.join(str(SUP.index(ch)) for ch in text[k:]))
     if '(' in text:
         head, rec = text[:-1].split('(')
         ip, fp = head.split('.')
@@ -645,6 +681,10 @@ def spec_eval(t):
             if a == 1:
                 return (Fraction(1), Fraction(0))
             raise Undefined('huge')
+        if a == 0:
+            return (Fraction(0), Fraction(0))
+        if a == 1 or a == -1:
+            return (Fraction(1 if (a == 1 or z % 2 == 0) else -1), Fraction(0))
         if abs(z) > 4096:
             raise Outside()              # never generated: too large to compute here
         return (a ** z, Fraction(0))
@@ -653,7 +693,9 @@ def spec_eval(t):
 def text_of(t):
     k = t[0]
     if k == 'lit':
-        return t[1]
+        # a blank after a superscript exponent: the lexer consumes the character that follows the
+        # superscript digits (open finding lexer-superscript-swallows-next-char, exercised by RAW_SUPERSCRIPT)
+        return t[1] + ' ' if t[1][-1] in SUP else t[1]
     if k == 'i':
         return 'i'
     if k == 'neg':
@@ -702,16 +744,42 @@ def gen_int_lit(r, big_ok=True):
         return str(rand_limb(r))
     return str(r.getrandbits(r.choice([1024, 2048, 4096])) | 1)
 
+SUP_EXPONENTS = ['0', '1', '2', '3', '7', '9', '10', '11', '20', '00', '01', '010', '002', '100', '101', '30', '64', '65']
+
+def gen_sup_lit(r):
+    """a number literal with a superscript exponent (zero digits, leading zeros, 2-3 digits)"""
+    m = r.choice(['0', '1', '2', '2', '3', '10', '10', '7', '12', '1.5', '0.5', '2.5', '0.1', '18446744073709551616', '1.(3)'])
+    e = r.choice(SUP_EXPONENTS)
+    if ('.' in m and int(e) > 24) or (len(m) > 6 and int(e) > 12):
+        e = r.choice(['10', '2', '02', '20'])
+    if m == '0' and int(e) == 0:
+        e = '10'        # 0^0 is an error, not a literal value
+    return ('lit', m + sup_digits(e))
+
 def gen_lit(r):
     k = r.random()
+    if k < 0.12:
+        return gen_sup_lit(r)
     if k < 0.8:
         return ('lit', gen_int_lit(r))
     if k < 0.93:
         return ('lit', r.choice(['0.5', '0.25', '1.5', '2.75', '0.1', '12.125', '0.001', '3.0', '18446744073709551616.5']))
     return ('lit', r.choice(['0.(3)', '0.(6)', '0.1(6)', '1.(142857)', '0.(09)']))
 
-def gen_exponent(r):
-    """an integer-valued exponent: literal, negative, cancelling history, unreduced quotient"""
+def gen_exponent(r, base=None):
+    """an integer-valued exponent: literal, negative, cancelling history, unreduced quotient;
+    for the bases 0, 1, -1 also exponents that use all 64 bits"""
+    if base is not None and base in (0, 1, -1) and r.random() < 0.6:
+        e = r.choice(BIG_EXPONENTS + [r.getrandbits(64) or 1, (r.getrandbits(31) + 1) << 32])
+        t = ('lit', str(e))
+        k = r.random()
+        if k < 0.2:
+            t = ('mul', ('lit', str(e // 2)), ('lit', '2')) if e % 2 == 0 else ('add', ('lit', str(e - 1)), ('lit', '1'))
+        elif k < 0.35:
+            t = ('div', ('lit', str(e * 3)), ('lit', '3'))
+        if base != 0 and r.random() < 0.3:
+            t = ('neg', t)
+        return t
     k = r.random()
     z = r.choice([0, 1, 2, 2, 3, 3, 4, 5, 7, 8, 11])
     if k < 0.35:
@@ -749,12 +817,22 @@ def gen_tree(r, depth, cx):
                 return None
             t = (r.choice(['real', 'imag', 'conj']), sub[0])
         elif k < 0.28:
-            base = gen_tree(r, depth - 1, False)
+            if r.random() < 0.25:
+                # a base whose powers are computable for any machine-range exponent
+                x = gen_tree(r, max(depth - 2, 0), False)
+                if x is None:
+                    return None
+                bt = r.choice([('lit', '0'), ('lit', '1'), ('neg', ('lit', '1')), ('sub', x[0], x[0]), ('sub', ('lit', '1'), ('lit', '2')),
+                               ('lit', '0.0'), ('lit', '1' + sup_digits('20')), ('div', ('lit', '3'), ('neg', ('lit', '3')))])
+                base = (bt, spec_eval(bt)); safe = True
+            else:
+                base = gen_tree(r, depth - 1, False); safe = False
             if base is None:
                 return None
             if max(abs(base[1][0].numerator).bit_length(), base[1][0].denominator.bit_length()) > 700:
                 return None
-            t = ('pow', base[0], gen_exponent(r))
+            # 64-bit exponents only on bases known to be stored in one limb (or equal to 1: Real::pow short-cut)
+            t = ('pow', base[0], gen_exponent(r, base[1][0] if (safe or base[1][0] == 1) else None))
         elif k < 0.36:
             # cancelling history (X + c) - X
             x = gen_tree(r, depth - 1, cx)
@@ -797,6 +875,8 @@ def repr_bound(t):
             v = spec_eval(t[1])[0]; z = abs(spec_eval(t[2])[0].numerator)
         except Exception:
             return (1 << 30, 1 << 30)
+        if v in (0, 1, -1):
+            return (128, 128)
         return ((v.numerator.bit_length() + 64) * max(z, 1) + 64, (v.denominator.bit_length() + 64) * max(z, 1) + 64)
     raise ValueError(k)
 
@@ -814,6 +894,8 @@ def all_sizes_ok(t):
     return all(all_sizes_ok(x) for x in t[1:]) if t[0] not in ('lit', 'i') else True
 
 ERROR_TREES = [
+    (('pow', ('lit', '0'), ('neg', ('lit', '4294967296'))), 'div0'),
+    (('pow', ('neg', ('lit', '1')), ('lit', '18446744073709551616')), 'huge'),
     (('div', ('lit', '1'), ('lit', '0')), 'div0'),
     (('div', ('lit', '5'), ('sub', ('lit', '18446744073709551616'), ('lit', '18446744073709551616'))), 'div0'),
     (('div', ('add', ('lit', '1'), ('i',)), ('sub', ('i',), ('i',))), 'div0'),
@@ -826,6 +908,25 @@ ERROR_TREES = [
 ]
 
 CORPUS_TREES = [
+    # exponents using more than 32 bits, on bases whose powers are computable
+    ('pow', ('lit', '0'), ('lit', '4294967296')),
+    ('pow', ('lit', '0'), ('lit', '12884901888')),
+    ('pow', ('sub', ('lit', '1'), ('lit', '1')), ('lit', '4294967296')),
+    ('pow', ('neg', ('lit', '1')), ('lit', '4294967297')),
+    ('pow', ('neg', ('lit', '1')), ('lit', '4294967296')),
+    ('pow', ('neg', ('lit', '1')), ('lit', '18446744073709551615')),
+    ('pow', ('neg', ('lit', '1')), ('neg', ('lit', '9223372036854775809'))),
+    ('pow', ('lit', '0'), ('lit', '18446744073709551615')),
+    ('pow', ('lit', '0'), ('lit', '9223372036854775808')),
+    ('pow', ('lit', '1'), ('neg', ('lit', '4294967296'))),
+    ('pow', ('div', ('lit', '3'), ('neg', ('lit', '3'))), ('add', ('lit', '8589934592'), ('lit', '1'))),
+    ('pow', ('lit', '0.0'), ('div', ('lit', '12884901888'), ('lit', '3'))),
+    # superscript exponents are literals of the language: zero digits, leading zeros, several digits
+    ('lit', '2' + sup_digits('10')), ('lit', '10' + sup_digits('20')), ('lit', '1.5' + sup_digits('10')), ('lit', '2' + sup_digits('0')),
+    ('lit', '2' + sup_digits('00')), ('lit', '2' + sup_digits('010')), ('lit', '3' + sup_digits('101')), ('lit', '10' + sup_digits('100')),
+    ('lit', '7' + sup_digits('02')), ('lit', '0' + sup_digits('10')), ('lit', '1' + sup_digits('100')),
+    ('add', ('lit', '2' + sup_digits('10')), ('neg', ('lit', '2' + sup_digits('9')))),
+    ('mul', ('lit', '0.5' + sup_digits('20')), ('lit', '2' + sup_digits('20'))),
     ('add', ('lit', '18446744073709551615'), ('lit', '340282366920938463444927863358058659841')),     # fcf264e
     ('pow', ('lit', '2'), ('sub', ('add', ('lit', '18446744073709551616'), ('lit', '5')), ('lit', '18446744073709551616'))),   # 2c2d128
     ('pow', ('neg', ('lit', '8')), ('div', ('lit', '6'), ('lit', '2'))),       # unreduced integer exponent, negative base
@@ -846,6 +947,25 @@ CORPUS_TREES = [
     ('imag', ('div', ('i',), ('add', ('lit', '0.5'), ('i',)))),
     ('neg', ('sub', ('lit', '5'), ('lit', '5'))),
 ]
+
+# texts in which a superscript exponent is directly followed by another character
+CLS_SUP_SWALLOW = 'lexer-superscript-swallows-next-char'
+RAW_SUPERSCRIPT = [('(1+2\u00b2)*3', 15), ('2\u00b2+1', 5), ('2\u00b2*3', 12), ('2\u00b2-1', 3), ('10\u00b2\u2070+1', 10 ** 20 + 1),
+                   ('(2\u00b2)+1', 5), ('(10\u00b2 - 10\u00b2)^3', 0), ('(2\u00b9\u2070)/4', 256),
+                   ('2\u00b2 +1', 5), ('(1+2\u00b2 )*3', 15), ('2\u00b9\u2070', 1024)]
+
+def check_raw_superscript(c):
+    outs = eval_texts(c, [t + ' to fraction' if False else t for t, _ in RAW_SUPERSCRIPT])
+    import re as _re
+    for (t, want), o in zip(RAW_SUPERSCRIPT, outs):
+        c.note_case('raw|' + t, True, 'expr/raw-superscript')
+        good = o[0] == 'o' and parse_fraction_text(o[1]) == want
+        if good:
+            continue
+        swallowed = _re.search('[' + SUP + '][^ ' + SUP + ']', t) is not None
+        if swallowed and c.known_finding(CLS_SUP_SWALLOW):
+            continue
+        c.violation('expression-superscript-text', {'kind': 'impl-vs-spec', 'layer': 'L2 raw text', 'text': t, 'impl': list(o), 'spec': want})
 
 def dbg_bu(rep):
     return str(rep[1]) if rep[0] == 's' else '[' + ', '.join(str(x) for x in reversed(rep[1])) + ']'
@@ -1091,6 +1211,7 @@ def check(c):
         c.notes.append('L1 BigRat already shows %d violations: L2 skipped' % len(c.violations))
         return
     check_expressions(c)
+    check_raw_superscript(c)
 
 
 def replay(c, obj):
